@@ -78,3 +78,13 @@ CASES += [
         ("quantarhei/qm/propagators/rdmpropagator.py", "        if self.has_PDeph:\n            \n            self._BOOT_DEPH()\n            \n            IR = 0.0",
          "        if self.has_PDeph:\n            \n            if getattr(self, \"expo\", None) is None:\n                self._BOOT_DEPH()\n            \n            IR = 0.0", 1)]},
 ]
+
+CASES += [
+    m("conversion from the rotating frame reads the frame frequencies in the caller's units (the repaired defect)", "C08-H",
+      "            with energy_units(\"int\"):\n                HOmega = ham.get_RWA_skeleton()", "            if True:\n                HOmega = ham.get_RWA_skeleton()"),
+    {"name": "the propagator behind the superoperator leaves internal units (the repaired defect)", "kind": "mutant", "rule": "C08-H", "edits": [
+        ("quantarhei/qm/propagators/rdmpropagator.py", "        with energy_units(\"int\"):\n            return self._propagate(rhoi, method=method, mdata=mdata,\n                                   Nref=Nref)",
+         "        if True:\n            return self._propagate(rhoi, method=method, mdata=mdata,\n                                   Nref=Nref)", 1)]},
+    t("frame frequencies bound to a differently named local", 
+      "            with energy_units(\"int\"):\n                HOmega = ham.get_RWA_skeleton()\n", "            with energy_units(\"int\"):\n                HOmega = ham.get_RWA_skeleton()\n            nfreq = len(HOmega)\n"),
+]
